@@ -91,7 +91,7 @@ def random_case(rng, tier):
         boundary = rng.randint(0, max(boundaries, 1))
         crashes[str(boundary)] = crashes.get(str(boundary), 0) + 1
     media = [rng.choice(persist.MEDIA) for _ in range(4)]
-    lag, tags = {}, None
+    lag, tags, lose_at = {}, None, []
     if rng.random() < 0.3:
         # the checkpoint goes through one of the bundled persisters, and at some crash points the instance runs on for a few
         # boundaries after its checkpoint before it is lost: nothing it does then may show in what is restored
@@ -100,6 +100,10 @@ def random_case(rng, tier):
             if rng.random() < 0.6:
                 lag[key] = rng.randint(1, 3)
         tags = [rng.choice([None, None, 0, '', 1, 'snap']) for _ in range(3)]
+        if rng.random() < 0.5:
+            # instances restored from a stored checkpoint are lost before they write one of their own: the same checkpoint
+            # is loaded again
+            lose_at = sorted({rng.randint(1, max(boundaries, 1) + 1) for _ in range(rng.randint(1, 2))})
     pauses, crash_paused = [], []
     if rng.random() < 0.3:
         # the process is paused (request made from inside a transition) at some boundaries; at some of those the PAUSED
@@ -118,7 +122,7 @@ def random_case(rng, tier):
         crash_on_played = sorted({rng.randint(1, 3) for _ in range(rng.randint(0, 1))})
     return {'program': program, 'crashes': crashes, 'media': media, 'loader': rng.choice(['default', 'default', 'custom']),
             'pauses': pauses, 'crash_paused': crash_paused, 'pause_in_step': pause_in_step, 'crash_on_paused': crash_on_paused,
-            'crash_on_played': crash_on_played, 'lag': lag, 'tags': tags}
+            'crash_on_played': crash_on_played, 'lag': lag, 'tags': tags, 'lose_at': lose_at}
 
 
 def shrink(case):
@@ -126,7 +130,7 @@ def shrink(case):
         candidate = copy.deepcopy(case)
         del candidate['crashes'][key]
         yield candidate
-    for key in ('pauses', 'crash_paused', 'pause_in_step', 'crash_on_paused', 'crash_on_played'):
+    for key in ('pauses', 'crash_paused', 'pause_in_step', 'crash_on_paused', 'crash_on_played', 'lose_at'):
         for i in range(len(case.get(key) or [])):
             candidate = copy.deepcopy(case)
             del candidate[key][i]
@@ -174,7 +178,8 @@ def run(case):
     runner = persist.RestartRun(case['program'], case.get('crashes'), case.get('media'), case.get('loader', 'default'),
                                 pauses=case.get('pauses'), crash_paused=case.get('crash_paused'),
                                 pause_in_step=case.get('pause_in_step'), crash_on_paused=case.get('crash_on_paused'),
-                                crash_on_played=case.get('crash_on_played'), lag=case.get('lag'), tags=case.get('tags'))
+                                crash_on_played=case.get('crash_on_played'), lag=case.get('lag'), tags=case.get('tags'),
+                                lose_at=case.get('lose_at'))
     try:
         proc = runner.run()
         if runner.runaway is not None:
@@ -204,6 +209,8 @@ def run(case):
         for event in runner.world.events:
             if event[0] == 'latest_saved':
                 result.counters['probe:latest_checkpoint_written_after_tagged_one'] += 1
+            if event[0] == 'crash' and event[2] == 'lost-again':
+                result.counters['crash:same_checkpoint_loaded_again'] += 1
             if event[0] == 'crash' and event[2] == 'lagged':
                 result.counters['crash:lagged_behind_checkpoint'] += 1
             if event[0] in ('crash', 'checkpoint') and str(event[3]).startswith('persister'):
